@@ -858,3 +858,27 @@ func (eng *Engine) RecursionObligations(pkg string, prop string, allow []string)
 	out = append(out, o)
 	return out
 }
+
+// Anchors lists the call anchors of a function (for writing contracts).
+func (eng *Engine) Anchors(name string) []string {
+	fn := eng.Funcs[name]
+	if fn == nil {
+		return nil
+	}
+	u := &Unit{eng: eng, fn: fn, name: name}
+	f := &Frame{u: u, fn: fn}
+	f.loops = findLoops(fn)
+	f.numberCalls()
+	var out []string
+	for _, b := range fn.Blocks {
+		if li := f.loops[b]; li != nil {
+			out = append(out, fmt.Sprintf("loop %d  (header block %d %s)", li.ord, b.Index, b.Comment))
+		}
+		for _, ins := range b.Instrs {
+			if a, ok := f.callOrd[ins]; ok {
+				out = append(out, fmt.Sprintf("%-40s %s", a, shortPos(eng.Fset, ins.Pos())))
+			}
+		}
+	}
+	return out
+}
